@@ -200,6 +200,10 @@ def t_to_async_iter(E):
                         ok = isinstance(fn_, VStub) and fn_.name == 'Queue.put_nowait' and len(args) == 1
                         if not ok:
                             raise Unsupported('call_soon_threadsafe(%r)' % (fn_,), node)
+                        ms = fn_.attrs.get('q').fields.get('maxsize') if fn_.attrs.get('q') is not None else None
+                        E.oblige(Qn + '/pre(put_nowait).hand_over_queue_is_unbounded',
+                                 z3.BoolVal(isinstance(ms, VInt) and ms.concrete() is not None and ms.concrete() <= 0),
+                                 props={'C16'})
                         x = args[0]
                         if not isinstance(x, VVal):
                             raise Unsupported('put of %r' % (x,), node)
@@ -228,7 +232,8 @@ def t_to_async_iter(E):
                     return VStub('loop.run_in_executor', rie)
             if isinstance(o, Obj) and o.cls == 'AQueue':
                 if name == 'put_nowait':
-                    return VStub('Queue.put_nowait', lambda E_, a, k: _unsupp('direct put_nowait from the worker'))
+                    return VStub('Queue.put_nowait', lambda E_, a, k: _unsupp('direct put_nowait from the worker'),
+                                 attrs={'q': o})
                 if name == 'get':
                     return VStub('Queue.get', lambda E_, a, k: aio.mk_awaitable('chan_get'))
             if isinstance(o, Obj) and o.cls == 'ExecFuture' and name == 'done':
@@ -375,6 +380,12 @@ def t_to_sync_iter(E):
                         x = a[0]
                         if not isinstance(x, VVal):
                             raise Unsupported('put of %r' % (x,), node)
+                        if name == 'put_nowait':
+                            ms = o.fields.get('maxsize')
+                            E.oblige(Qn + '/pre(put_nowait).hand_over_queue_is_unbounded',
+                                     z3.BoolVal(isinstance(ms, VInt) and ms.concrete() is not None and ms.concrete() <= 0),
+                                     props={'C16'}, detail='a producer ahead of the consumer by more than the bound '
+                                     'gets queue.Full: elements and the end marker are lost')
                         E.w['chan'] = z3.Concat(E.w['chan'], z3.Unit(x.t))
                         return NONE
                     return VStub('queue.Queue.put_nowait', put)
@@ -488,6 +499,18 @@ def install_c17(E, st, Qn):
     ns.attrs['iscoroutine'] = VStub('asyncio.iscoroutine', lambda E_, a, k: VBool(isinstance(a[0], VCoro)) if not isinstance(a[0], VVal)
                                     else VBool(z3.Function('is_coroutine_object', ValS, B)(a[0].t)))
 
+    is_coro = z3.Function('is_coroutine_object', ValS, B)
+    is_fut = z3.Function('is_future_object', ValS, B)
+
+    def isfuture(E_, a, k):
+        # futures (and tasks) are not coroutine objects; an awaitable may be neither (an object with __await__)
+        if not isinstance(a[0], VVal):
+            return VBool(False)
+        E.assume(z3.Not(z3.And(is_coro(a[0].t), is_fut(a[0].t))))
+        return VBool(is_fut(a[0].t))
+    ns.attrs['isfuture'] = VStub('asyncio.isfuture', isfuture)
+    st['is_coro'] = is_coro
+
     def await_user(E_, v, node, fr):
         if isinstance(v, VVal) and v.t.sort() == ValS:
             return (evaluate(E, st, v, E.w['cur_loop'], node),)
@@ -503,6 +526,11 @@ def install_c17(E, st, Qn):
         runs ONLY if the loop keeps running -- with no time-out guarding the result the caller must know that
         (precondition target_keeps_running)."""
         coro, lp = a[0], a[1]
+        E.oblige('%s/pre(run_coroutine_threadsafe).argument_is_a_coroutine_object' % st['top'],
+                 z3.BoolVal(True) if isinstance(coro, VCoro) else
+                 is_coro(coro.t) if isinstance(coro, VVal) and coro.t.sort() == ValS else z3.BoolVal(False),
+                 props={'C17'}, detail='TypeError("A coroutine object is required") otherwise: the awaitable is never '
+                                       'evaluated and the caller gets a foreign error')
         if E.branch(z3.Select(closed(), lp.t)):
             E.throw('RuntimeError', origin='closed-loop')
         E.oblige('%s/pre(run_coroutine_threadsafe).target_keeps_running' % st['top'],
